@@ -3,4 +3,6 @@ CONSTANTS
   MaxC = 4
   MaxLong = 16
   MaxJobs = 9
+  MaxWide = 130
+  WideJobs = {2,3,4,5,6,7,8,9,10,11,12,13,14,15,16,17,33,40}
 CHECK_DEADLOCK FALSE
